@@ -212,3 +212,41 @@ Lemma attached_dict_history_example_lemma :
 Proof.
   cbv zeta. split; [apply AInv_init|]. split; [cbn [hist_okA op_okA]; tauto|]. split; vm_compute; reflexivity.
 Qed.
+
+(* ---- the test of 00d59f3 is not over-eager: while the input stays contiguous (and no index correction runs, which
+   drops every dictionary by design) a block-mode block keeps the attached dictionary ---- *)
+Lemma block_mode_keeps_dict_lemma :
+  forall freq h src size,
+    AInv h -> ms_dms (h_ms h) = true -> h_forceNC h = false ->
+    src = nextSrc (ms_window (h_ms h)) -> size <> 0 ->
+    let h1 := continue_update h src size in
+    window_needOverflowCorrection freq (ms_window (h_ms h1))
+        (cycleLog_of (p_chainLog (h_params h1)) (p_strategy (h_params h1)))
+        (u32 (Z.shiftl 1 (p_windowLog (h_params h1)))) (ms_loadedDictEnd (h_ms h1)) src (src + size) = false ->
+    let h' := step freq h (OpBlockMode src size) in
+    ms_dms (h_ms h') = true /\ ms_loadedDictEnd (h_ms h') = ms_loadedDictEnd (h_ms h) /\
+    dictLimit (ms_window (h_ms h')) = dictLimit (ms_window (h_ms h)).
+Proof.
+  intros freq h src size Ha Hd Hf Hs Hnz h1 Hno. cbv zeta.
+  cbn [step]. destruct (Z.eqb_spec size 0) as [|_]; [contradiction|].
+  fold h1.
+  unfold overflowCorrectIfNeeded. rewrite Hno.
+  (* the state after the window update: same dictLimit, same loadedDictEnd, dictionary still attached *)
+  assert (H1 : ms_dms (h_ms h1) = true /\ ms_loadedDictEnd (h_ms h1) = ms_loadedDictEnd (h_ms h) /\
+               dictLimit (ms_window (h_ms h1)) = dictLimit (ms_window (h_ms h))).
+  { unfold h1, continue_update, window_update.
+    destruct (Z.eqb_spec size 0) as [|_]; [contradiction|].
+    rewrite Hf, Hs, Z.eqb_refl. cbn [negb orb].
+    match goal with |- context [if ?c then set_low _ _ else _] => destruct c end;
+      cbn [h_ms ms_dms ms_loadedDictEnd ms_window set_low set_nextSrc dictLimit]; auto. }
+  destruct H1 as (Hd1 & Hl1 & Hdl1).
+  assert (Hadj : ms_loadedDictEnd (h_ms h1) = dictLimit (ms_window (h_ms h1))).
+  { rewrite Hl1, Hdl1. apply Ha. exact Hd. }
+  unfold block_search_effect.
+  assert (Hc : ms_dms (block_mode_dict_check (h_ms h1)) = true).
+  { unfold block_mode_dict_check. cbn [ms_dms]. rewrite Hadj, Z.eqb_refl. exact Hd1. }
+  destruct (size <? TINY_BLOCK).
+  - cbn [h_ms]. split; [exact Hc|]. unfold block_mode_dict_check. cbn [ms_loadedDictEnd ms_window]. auto.
+  - rewrite Hc. rewrite andb_false_r, andb_false_r. cbn [andb h_ms].
+    split; [exact Hc|]. unfold block_mode_dict_check. cbn [ms_loadedDictEnd ms_window]. auto.
+Qed.
